@@ -124,7 +124,10 @@ fn run_case(sh: &mut Shard, case: u64, rng: &mut Rng) {
     let pat_seed = rng.u64();
     let times: Vec<u64> = vec![rng.u64() >> rng.below(40)];
     let vname = ["tx_rx", "tx_rx_sync_system_time", "tx_rx_dc"][variant as usize];
-    let scenario = json!({"case": case, "variant": vname, "devices": n, "image": image, "inputs": in_total, "outputs": out_total, "frame_len": frame_len, "dc": dc_any});
+    // half of the cycles: the segment answers the bytes no device supplied (the outputs) with other
+    // bytes than were sent - the local outputs must survive that
+    let scramble: u8 = if rng.bool() { 1 + rng.below(255) as u8 } else { 0 };
+    let scenario = json!({"case": case, "variant": vname, "scramble_unread": scramble, "devices": n, "image": image, "inputs": in_total, "outputs": out_total, "frame_len": frame_len, "dc": dc_any});
     if std::env::var("VH_PROGRESS").is_ok() {
         eprintln!("{scenario}");
     }
@@ -177,10 +180,12 @@ fn run_case(sh: &mut Shard, case: u64, rng: &mut Rng) {
                     }
                     sim.net.keep_log = true;
                     sim.net.log.clear();
+                    sim.net.faults.scramble_unread_lrw = scramble;
                     let r = match sim.run(g.$call(md)) {
                         Ok(Ok(r)) => r,
                         other => return Err(format!("cycle: {:?}", other.map(|r| r.map(|_| ())))),
                     };
+                    sim.net.faults.scramble_unread_lrw = 0;
                     sim.net.keep_log = false;
                     let mut after = vec![];
                     for sd in g.iter(md) {
@@ -235,6 +240,9 @@ fn run_case(sh: &mut Shard, case: u64, rng: &mut Rng) {
         })
     }));
     sh.count(&format!("variant.{}", ["tx_rx", "tx_rx_sync_system_time", "tx_rx_dc"][variant as usize]));
+    if scramble != 0 {
+        sh.count("cycles_with_foreign_bytes_in_unread_answer");
+    }
     let (log, before, after, in_len, _start, wkc, states, time, truth, dc_ref) = match res {
         Err(p) => {
             let msg = p.downcast_ref::<String>().cloned().or_else(|| p.downcast_ref::<&str>().map(|s| s.to_string())).unwrap_or_default();
